@@ -9,11 +9,15 @@
 #include <locale.h>
 #include <unistd.h>
 #include <sys/wait.h>
-extern long W_live, W_files;
+extern long W_live, W_files, W_fail_at, W_fail_spare_errors;
+/* one crystal / list / symbol step in five runs with one of its first six allocation requests refused (the functions whose unchecked allocations are known findings are not armed) */
+#define ARMH() do { W_fail_at = rndint(0, 4) ? 0 : rndint(1, 6); } while (0)
+#define DISARMH() do { W_fail_at = 0; } while (0)
 #define NSLOT 12
 enum { K_NONE, K_COMPOUND, K_NIST, K_NUCLIDE, K_CRYSTAL, K_LIST, K_STRING, K_ARRAY };
 static const char *KN[] = {"none", "compound", "nist", "nuclide", "crystal", "list", "string", "array"};
 typedef struct { int kind; void *p; int n; } Obj;
+static int grew;      /* 1 when the step gave a user array its storage block (an array created for 0 crystals has none): logged as "g" with the next event */
 static Obj objs[NSLOT]; static long hid; static int stepno; static long live0; static const char *scratchdir = "/tmp";
 static const char *STR[] = {"H2O", "Ca5(PO4)3OH", "Fe", "SiO2", "C6H12O6", "Na2(SO4)(H2O)10", "(((H)))", "U0.5Pu0.5O2", "Water, Liquid", "Bone, Cortical (ICRP)", "Air, Dry (near sea level)", "Polyethylene",
   "", "H2O)", "(H2O", "()", "H0", "2O", "Rf", "Xx", "H(2)", "CuI2ww", "Fe 2", "Au(11(H3PO4))2", "Fe2.5.5", "H1..2", "garbage!", "((H)2(O)0)", "Ca(Xx)2", "O(H2", "Fe3O4(", "He)(", "H2O2H", "Ab2", "Fe(OH)3.5.5", "Unobtainium", "55Fe", "241Am", "55fe"};
@@ -21,7 +25,7 @@ static const char *STR[] = {"H2O", "Ca5(PO4)3OH", "Fe", "SiO2", "C6H12O6", "Na2(
 
 static void ev(const char *op, const char *arg, int iarg, int slot, int ok, int id, int kind, int n, long l0, int err) {
   fprintf(OUT, "{\"k\":\"hop\",\"hist\":%ld,\"i\":%d,\"op\":\"%s\",\"arg\":", hid, stepno++, op); jstr(arg ? arg : "");
-  fprintf(OUT, ",\"iarg\":%d,\"slot\":%d,\"ok\":%d,\"id\":%d,\"kind\":\"%s\",\"n\":%d,\"d\":%ld,\"live\":%ld,\"files\":%ld,\"err\":%d}\n", iarg, slot, ok, id, KN[kind], n, W_live - l0, W_live - live0, W_files, err);
+  fprintf(OUT, ",\"iarg\":%d,\"slot\":%d,\"ok\":%d,\"id\":%d,\"kind\":\"%s\",\"n\":%d,\"d\":%ld,\"live\":%ld,\"files\":%ld,\"err\":%d,\"g\":%d}\n", iarg, slot, ok, id, KN[kind], n, W_live - l0, W_live - live0, W_files, err, grew); grew = 0;
 }
 static int free_slot(void) { int c = 0, pick = -1; for (int i = 0; i < NSLOT; i++) if (!objs[i].p && rndint(0, c++) == 0) pick = i; return pick; }
 static int live_of(int kind) { int c = 0, pick = -1; for (int i = 0; i < NSLOT; i++) if (objs[i].p && (kind < 0 || objs[i].kind == kind) && rndint(0, c++) == 0) pick = i; return pick; }
@@ -65,16 +69,16 @@ static void step(void) {
     struct radioNuclideData *c = GetRadioNuclideDataByName(s, useslot ? &e : NULL); ev("GetRadioNuclideDataByName", s ? s : "<NULL>", 0, useslot, c != NULL, c ? i : -1, K_NUCLIDE, 0, l0, e != NULL); if (c) { objs[i].p = c; objs[i].kind = K_NUCLIDE; } }
   else if (r < 40) { int i = free_slot(); if (i < 0) return; int k = rndint(-2, 12);
     struct radioNuclideData *c = GetRadioNuclideDataByIndex(k, useslot ? &e : NULL); ev("GetRadioNuclideDataByIndex", "", k, useslot, c != NULL, c ? i : -1, K_NUCLIDE, 0, l0, e != NULL); if (c) { objs[i].p = c; objs[i].kind = K_NUCLIDE; } }
-  else if (r < 45) { int i = free_slot(); if (i < 0) return; int which = rndint(0, 2), n = -1; char **l = which == 0 ? GetCompoundDataNISTList(&n, &e) : which == 1 ? GetRadioNuclideDataList(&n, &e) : Crystal_GetCrystalsList(NULL, &n, &e);
+  else if (r < 45) { int i = free_slot(); if (i < 0) return; int which = rndint(0, 2), n = -1; ARMH(); char **l = which == 0 ? GetCompoundDataNISTList(&n, &e) : which == 1 ? GetRadioNuclideDataList(&n, &e) : Crystal_GetCrystalsList(NULL, &n, &e); DISARMH();
     ev(which == 0 ? "GetCompoundDataNISTList" : which == 1 ? "GetRadioNuclideDataList" : "Crystal_GetCrystalsList", "", 0, 1, l != NULL, i, K_LIST, n, l0, e != NULL); if (l) { objs[i].p = l; objs[i].kind = K_LIST; objs[i].n = n; } }
-  else if (r < 49) { int i = free_slot(); if (i < 0) return; int Z = rndint(-2, 110); char *s = AtomicNumberToSymbol(Z, useslot ? &e : NULL); ev("AtomicNumberToSymbol", "", Z, useslot, s != NULL, s ? i : -1, K_STRING, 0, l0, e != NULL); if (s) { objs[i].p = s; objs[i].kind = K_STRING; } }
+  else if (r < 49) { int i = free_slot(); if (i < 0) return; int Z = rndint(-2, 110); ARMH(); char *s = AtomicNumberToSymbol(Z, useslot ? &e : NULL); DISARMH(); ev("AtomicNumberToSymbol", "", Z, useslot, s != NULL, s ? i : -1, K_STRING, 0, l0, e != NULL); if (s) { objs[i].p = s; objs[i].kind = K_STRING; } }
   else if (r < 55) { int i = free_slot(); if (i < 0) return; const char *names[] = {"Si", "Diamond", "AlphaQuartz", "nope", "", NULL}; const char *s = names[rndint(0, 5)]; int ua = live_of(K_ARRAY);
-    Crystal_Struct *c = Crystal_GetCrystal(s, (ua >= 0 && rndint(0, 1)) ? objs[ua].p : NULL, useslot ? &e : NULL); ev("Crystal_GetCrystal", s ? s : "<NULL>", 0, useslot, c != NULL, c ? i : -1, K_CRYSTAL, 0, l0, e != NULL); if (c) { objs[i].p = c; objs[i].kind = K_CRYSTAL; } }
-  else if (r < 58) { int a = live_of(K_CRYSTAL), i = free_slot(); if (i < 0) return; Crystal_Struct *c = Crystal_MakeCopy(a >= 0 ? objs[a].p : NULL, useslot ? &e : NULL); ev("Crystal_MakeCopy", "", a, useslot, c != NULL, c ? i : -1, K_CRYSTAL, 0, l0, e != NULL); if (c) { objs[i].p = c; objs[i].kind = K_CRYSTAL; } }
+    Crystal_Array *from = (ua >= 0 && rndint(0, 1)) ? objs[ua].p : NULL; ARMH(); Crystal_Struct *c = Crystal_GetCrystal(s, from, useslot ? &e : NULL); DISARMH(); ev("Crystal_GetCrystal", s ? s : "<NULL>", 0, useslot, c != NULL, c ? i : -1, K_CRYSTAL, 0, l0, e != NULL); if (c) { objs[i].p = c; objs[i].kind = K_CRYSTAL; } }
+  else if (r < 58) { int a = live_of(K_CRYSTAL), i = free_slot(); if (i < 0) return; ARMH(); Crystal_Struct *c = Crystal_MakeCopy(a >= 0 ? objs[a].p : NULL, useslot ? &e : NULL); DISARMH(); ev("Crystal_MakeCopy", "", a, useslot, c != NULL, c ? i : -1, K_CRYSTAL, 0, l0, e != NULL); if (c) { objs[i].p = c; objs[i].kind = K_CRYSTAL; } }
   else if (r < 62) { int i = free_slot(); if (i < 0) return; int n = rndint(-1, 3); if (rndint(0, 11) == 0) n = rndint(0, 1) ? 2147483647 : (1 << 30);      /* a capacity no allocator can satisfy */
-    Crystal_Array *a = Crystal_ArrayInit(n, useslot ? &e : NULL); ev("Crystal_ArrayInit", "", n, useslot, a != NULL, a ? i : -1, K_ARRAY, n, l0, e != NULL); if (a) { objs[i].p = a; objs[i].kind = K_ARRAY; objs[i].n = n; } }
+    ARMH(); Crystal_Array *a = Crystal_ArrayInit(n, useslot ? &e : NULL); DISARMH(); ev("Crystal_ArrayInit", "", n, useslot, a != NULL, a ? i : -1, K_ARRAY, n, l0, e != NULL); if (a) { objs[i].p = a; objs[i].kind = K_ARRAY; objs[i].n = n; } }
   else if (r < 68) { int a = live_of(K_ARRAY), c = live_of(K_CRYSTAL); if (a < 0) return; Crystal_Array *arr = objs[a].p; int had = arr->crystal != NULL;
-    int rv = Crystal_AddCrystal(c >= 0 ? objs[c].p : NULL, arr, useslot ? &e : NULL); ev("Crystal_AddCrystal", c >= 0 ? ((Crystal_Struct *)objs[c].p)->name : "<NULL>", a, useslot, rv, a, K_ARRAY, had, l0, e != NULL); }
+    ARMH(); int rv = Crystal_AddCrystal(c >= 0 ? objs[c].p : NULL, arr, useslot ? &e : NULL); DISARMH(); grew = (arr->crystal != NULL) - had; ev("Crystal_AddCrystal", c >= 0 ? ((Crystal_Struct *)objs[c].p)->name : "<NULL>", a, useslot, rv, a, K_ARRAY, had, l0, e != NULL); }
   else if (r < 74) { int a = live_of(K_ARRAY); if (a < 0) return; Crystal_Array *arr = objs[a].p; int had = arr->crystal != NULL; char path[300]; snprintf(path, sizeof path, "%s/xrl-c04-%d.dat", scratchdir, (int)getpid());
     int k = rndint(1, 3), bad = rndint(0, 1) ? 0 : rndint(1, 5); if (bad < 5) write_crystal_file(path, k, bad, stepno); else unlink(path);
     /* one time in six the name does not refer to a regular file: a FIFO fed by another process (not seekable), a directory, the null device */
@@ -86,7 +90,7 @@ static void step(void) {
     else if (kind == 2) { use = scratchdir; k = 0; bad = 9; }
     else if (kind == 3) { use = "/dev/null"; k = 0; bad = 9; }
     else kind = 0;
-    l0 = W_live; int rv = Crystal_ReadFile(use, arr, useslot ? &e : NULL); ev("Crystal_ReadFile", bad == 0 ? "good" : "bad", a, useslot, rv, a, K_ARRAY, rv ? k * 10 + had : had, l0, e != NULL); unlink(path);
+    l0 = W_live; ARMH(); int rv = Crystal_ReadFile(use, arr, useslot ? &e : NULL); DISARMH(); grew = (arr->crystal != NULL) - had; ev("Crystal_ReadFile", bad == 0 ? "good" : "bad", a, useslot, rv, a, K_ARRAY, rv ? k * 10 + had : had, l0, e != NULL); unlink(path);
     if (kind == 1) { int fd = open(fifo, O_RDONLY | O_NONBLOCK); if (fd >= 0) close(fd); if (feeder > 0) { kill(feeder, SIGKILL); waitpid(feeder, NULL, 0); } unlink(fifo); } }
   else if (r < 90) {   /* functions that allocate internally and hand nothing out */
     const char *s = STR[rndint(0, NSTR - 1)]; double E = (double[]){-1, 0, 0.5, 8.0, 17.44, 100.0, 5000.0}[rndint(0, 6)], rho = (double[]){-1, 0, 1.0, 2.5}[rndint(0, 3)]; int which = rndint(0, 7); xrl_error **pe = useslot ? &e : NULL; const char *nm;
@@ -100,13 +104,14 @@ static void step(void) {
     case 6: CSb_Photo_Total_CP(s, E, pe); nm = "CSb_Photo_Total_CP"; break;
     default: DCS_Rayl_CP(s, E, 0.3, pe); nm = "DCS_Rayl_CP"; break;
     }
-    fprintf(OUT, "{\"k\":\"hop\",\"hist\":%ld,\"i\":%d,\"op\":\"Call\",\"arg\":", hid, stepno++); jstr(s); fprintf(OUT, ",\"fn\":\"%s\",\"E\":\"%g\",\"rho\":\"%g\",\"iarg\":0,\"slot\":%d,\"ok\":%d,\"id\":-1,\"kind\":\"none\",\"n\":0,\"d\":%ld,\"live\":%ld,\"files\":%ld,\"err\":%d}\n", nm, E, rho, useslot, e == NULL, W_live - l0, W_live - live0, W_files, e != NULL);
+    fprintf(OUT, "{\"k\":\"hop\",\"hist\":%ld,\"i\":%d,\"op\":\"Call\",\"arg\":", hid, stepno++); jstr(s); fprintf(OUT, ",\"fn\":\"%s\",\"E\":\"%g\",\"rho\":\"%g\",\"iarg\":0,\"slot\":%d,\"ok\":%d,\"id\":-1,\"kind\":\"none\",\"n\":0,\"d\":%ld,\"live\":%ld,\"files\":%ld,\"err\":%d,\"g\":0}\n", nm, E, rho, useslot, e == NULL, W_live - l0, W_live - live0, W_files, e != NULL);
   }
   else { int i = live_of(-1); if (i >= 0) release(i); return; }
   if (e) { l0 = W_live; xrl_clear_error(&e); ev("ClearError", "", 0, 1, 1, -1, K_NONE, 0, l0, 0); }
 }
 int cmd_c04(int argc, char **argv) {
   int nh = argc > 0 ? atoi(argv[0]) : 10, maxlen = argc > 1 ? atoi(argv[1]) : 100;
+  W_fail_spare_errors = 1;
   if (getenv("XRL_SCRATCH_DIR")) scratchdir = getenv("XRL_SCRATCH_DIR");
   static char iobuf[1 << 16]; setvbuf(OUT, iobuf, _IOFBF, sizeof iobuf);       /* no allocation by stdio inside the measured windows */
   for (int h = 0; h < nh; h++) {
